@@ -51,7 +51,16 @@ def gen_tree(rng, hostile=True):
                     if key not in used:
                         used.add(key)
                         break
-                links.append({"root": key[0], "nest": key[1], "name": key[2], "target": tgt, "relative": rng.random() < 0.5})
+                # now and then a link to the previous link (a chain of relative links through another directory)
+                via = 0 if links and rng.random() < 0.5 else None
+                links.append({"root": key[0], "nest": key[1], "name": key[2], "target": links[0]["target"] if via is not None else tgt,
+                              "relative": True if via is not None else rng.random() < 0.5, "via": via})
+        if cfg["S"] and rng.random() < 0.5 and ("O", 1, "a-chain%d" % g) not in used:
+            # a chain of relative links whose outer end sorts first in the group: the path a `link` command takes as its source
+            used.add(("O", 1, "a-chain%d" % g))
+            inner = len(links)
+            links.append({"root": "R1", "nest": 2, "name": "inner%d" % g, "target": rng.randrange(k), "relative": True, "via": None})
+            links.append({"root": "O", "nest": 1, "name": "a-chain%d" % g, "target": links[inner]["target"], "relative": True, "via": inner})
         groups.append({"files": files, "links": links, "size": rng.choice([7, 300, 4100])})
     return cfg, groups
 
@@ -77,10 +86,12 @@ class Tree:
                     lib.write_file(p, data, lib.OLD_MTIME + 10 * gi)
                     first[f["ino"]] = p
                 g["paths"].append(p)
+            lpaths = []
             for l in g["links"]:
                 d = os.path.join(self.base, l["root"], "s" if l["nest"] == 2 else "")
                 p = os.path.normpath(os.path.join(d, l["name"]))
-                t = g["paths"][l["target"]]
+                t = g["paths"][l["target"]] if l.get("via") is None else lpaths[l["via"]]
+                lpaths.append(p)
                 os.symlink(os.path.relpath(t, os.path.dirname(p)) if l["relative"] else t, p)
                 os.utime(p, (lib.OLD_MTIME, lib.OLD_MTIME), follow_symlinks=False)
         # decoys: next to every member whose name ends or starts with white space, an unrelated file of the same length
